@@ -71,10 +71,13 @@ def main():
                           "itself. Trusted base: Python ast, the numpy/multiprocessing/IO semantics encoded in vk/, "
                           "the hand-written role/oracle tables in checks/. Genuine defects already in the tree are "
                           "listed in known_findings.json and reported as KNOWN-FINDING. Renames of locals, re-formatting and added "
-                          "logging are normalised away (DESIGN §10); a refactor that renames attributes / task keys / functions or "
-                          "restructures an anchored construct can make a rule report ANALYSIS-ERROR or a finding although behaviour "
-                          "is unchanged — the main remaining false-alarm risk.",
-            "technique": "static analysis: " + tech,
+                          "logging, extracted/inlined locals and helpers are normalised away (DESIGN §10). Verdicts are three-valued "
+                          "(DESIGN §11): rules that compare the shape of statements abstain (exit 2, undecided) on functions whose "
+                          "statement structure no longer matches the reference tree; on behaviour-preserving refactors of anchored "
+                          "functions some rules still report a finding the code does not deserve (measured in DESIGN §6: 16 of 21 "
+                          "sub-agent refactors make at least one check leave non-zero) — the main weakness of this rule base.",
+            "technique": "static analysis: " + tech + "; generic lints over the anchored functions (loop-carried "
+                         "state, untrimmed level tables, task-argument mutation; DESIGN §12)",
         })
     na = [{"property_id": p, "reason": PENDING.get(p, "check not built yet in this session (static rules designed in DESIGN §4; claimed as soon as the check exists)")}
           for p in ALL if p not in {c["property_id"] for c in checks}]
